@@ -49,6 +49,10 @@ type Val struct {
 
 	// constants
 	Big interface{} // *big.Int
+
+	// Alt: for a wide integer known to be non-negative and to come from bit-vector data,
+	// a bit-vector whose unsigned value equals the integer (used for bit operations).
+	Alt Term
 }
 
 func (v Val) String() string {
@@ -112,6 +116,18 @@ func basicWidth(b *types.Basic) (w int, signed bool, ok bool) {
 	return 0, false, false
 }
 
+// isWide: 64-bit integer types modelled as mathematical Int with explicit wrap-around
+// (int, int64, uint, uintptr). uint64 stays a bit-vector (hashes, address halves).
+func isWide(t types.Type) bool {
+	if b, ok := t.Underlying().(*types.Basic); ok {
+		switch b.Kind() {
+		case types.Int, types.Int64, types.Uint, types.Uintptr, types.UntypedInt, types.UntypedRune:
+			return true
+		}
+	}
+	return false
+}
+
 func isSigned(t types.Type) bool {
 	if b, ok := t.Underlying().(*types.Basic); ok {
 		_, s, _ := basicWidth(b)
@@ -151,7 +167,7 @@ func (en *Engine) layout(t types.Type) []comp {
 		case u.Kind() == types.Bool || u.Kind() == types.UntypedBool:
 			out = []comp{{SBool, False, ""}}
 		case u.Kind() == types.String || u.Kind() == types.UntypedString:
-			out = []comp{{SInt, Nil, ".obj"}, {SBV64, BV(0, 64), ".off"}, {SBV64, BV(0, 64), ".len"}}
+			out = []comp{{SInt, Nil, ".obj"}, {SInt, Nil, ".off"}, {SInt, Nil, ".len"}}
 		case u.Kind() == types.Float32 || u.Kind() == types.Float64 || u.Kind() == types.UntypedFloat:
 			out = []comp{{"F64", Term{"f64zero", "F64"}, ""}}
 		case u.Kind() == types.UnsafePointer:
@@ -163,12 +179,16 @@ func (en *Engine) layout(t types.Type) []comp {
 			if !ok {
 				panic(unsupported("basic type " + u.String()))
 			}
-			out = []comp{{BVSort(w), BV(0, w), ""}}
+			if isWide(t) {
+				out = []comp{{SInt, Nil, ""}}
+			} else {
+				out = []comp{{BVSort(w), BV(0, w), ""}}
+			}
 		}
 	case *types.Pointer, *types.Map, *types.Chan, *types.Signature:
 		out = []comp{{SInt, Nil, ""}}
 	case *types.Slice:
-		out = []comp{{SInt, Nil, ".obj"}, {SBV64, BV(0, 64), ".off"}, {SBV64, BV(0, 64), ".len"}, {SBV64, BV(0, 64), ".cap"}}
+		out = []comp{{SInt, Nil, ".obj"}, {SInt, Nil, ".off"}, {SInt, Nil, ".len"}, {SInt, Nil, ".cap"}}
 	case *types.Interface:
 		out = []comp{{SInt, Nil, ".tag"}, {SInt, Nil, ".ref"}}
 	case *types.Struct:
@@ -181,7 +201,7 @@ func (en *Engine) layout(t types.Type) []comp {
 	case *types.Array:
 		el := en.layout(u.Elem())
 		for _, c := range el {
-			as := ArrSort(SBV64, c.Sort)
+			as := ArrSort(SInt, c.Sort)
 			out = append(out, comp{as, Term{fmt.Sprintf("((as const %s) %s)", as, c.Zero.S), as}, "[]" + c.Path})
 		}
 	case *types.Tuple:
@@ -280,6 +300,9 @@ func iteVal(c Term, a, b Val) (Val, bool) {
 				return Val{}, false
 			}
 			out.C[i] = Ite(c, a.C[i], b.C[i])
+		}
+		if a.Alt.S != "" && b.Alt.S != "" && a.Alt.Sort == b.Alt.Sort {
+			out.Alt = Ite(c, a.Alt, b.Alt)
 		}
 		return out, true
 	case KCellPtr:
